@@ -59,6 +59,10 @@ static double complex zgen(int zmode, int f, int p)
     default:
 	if (g_variant)
 	    return (90.0 - 9.0 * p - 13.0 * f) + I * (6.0 * f - 4.0 * p);
+	/* at odd frequencies the real parts are partly equal: the same on
+	   ports 1, 3, 5, another on 2, 4 */
+	if (f % 2 == 1)
+	    return (50.0 + 25.0 * (p % 2)) + I * (5.0 * (p + 1) - 8.0 * f);
 	return (40.0 + 7.0 * p + 11.0 * f) + I * (5.0 * (p + 1) - 8.0 * f);
     }
 }
